@@ -71,8 +71,10 @@ func genOps(t *rapid.T) Case {
 		switch {
 		case k < 18:
 			c.Ops = append(c.Ops, Op{K: "set", A: name("a"), V: rapid.IntRange(0, 5).Draw(t, "v")})
-		case k < 42:
+		case k < 40:
 			c.Ops = append(c.Ops, Op{K: "setlog", A: name("a"), V: rapid.IntRange(0, 5).Draw(t, "v")})
+		case k < 42:
+			c.Ops = append(c.Ops, Op{K: "burst", A: name("a"), V: rapid.SampledFrom([]int{8, 9, 17, 30, 3}).Draw(t, "burst")})
 		case k < 50:
 			c.Ops = append(c.Ops, Op{K: "delete", A: name("a")})
 		case k < 56:
@@ -176,8 +178,19 @@ func run(c Case) (o evid.Outcome, err error) {
 		return o, fmt.Errorf("HARNESS: %v", err)
 	}
 	defer closeFn()
+	return runOn(c, rs, false)
+}
+
+// runOn drives one store and the map model side by side. fsMode marks the file store, whose
+// generator only issues the operations that store implements (see fs_test.go).
+func runOn(c Case, rs ref.Store, fsMode bool) (o evid.Outcome, err error) {
 	m := &modelT{vals: map[string][]byte{}, logs: map[string][]logEntry{}}
 	tricky := false
+	longLog := false
+	logNames := names
+	if fsMode {
+		logNames = fsNames
+	}
 
 	verify := func(step int, op Op) error {
 		all, err := rs.Filter(nil, nil)
@@ -187,7 +200,7 @@ func run(c Case) (o evid.Outcome, err error) {
 		if err := sameMap(all, m.vals); err != nil {
 			return fmt.Errorf("step %d after %+v: store content differs from the map model: %v", step, op, err)
 		}
-		for _, name := range names {
+		for _, name := range logNames {
 			want := m.logs[name]
 			r, err := rs.LogReader(name)
 			if err != nil {
@@ -238,6 +251,20 @@ func run(c Case) (o evid.Outcome, err error) {
 			}
 			m.logs[op.A] = append(m.logs[op.A], logEntry{m.vals[op.A], val(op.V), action})
 			m.vals[op.A] = val(op.V)
+		case "burst":
+			// many logged sets on one name: the log outgrows any read buffer
+			for i := 0; i < op.V; i++ {
+				action := fmt.Sprintf("burst%d-%d %s", step, i, strings.Repeat("m", (i*37)%90))
+				v := val((step + i) % 6)
+				if err := ref.SaveRef(rs, op.A, v, "n", "e", action, "msg", nil); err != nil {
+					return o, fmt.Errorf("step %d: SaveRef(%q) #%d: %v", step, op.A, i, err)
+				}
+				m.logs[op.A] = append(m.logs[op.A], logEntry{m.vals[op.A], v, action})
+				m.vals[op.A] = v
+			}
+			if op.V >= 8 {
+				longLog = true
+			}
 		case "delete":
 			err := rs.Delete(op.A)
 			if _, ok := m.vals[op.A]; ok && err != nil {
@@ -381,6 +408,12 @@ func run(c Case) (o evid.Outcome, err error) {
 		}
 	}
 	o.NonTrivial = tricky
+	if fsMode {
+		o.NonTrivial = longLog
+	}
+	if longLog {
+		o.Class("log>1KiB")
+	}
 	o.Class("ops=%s", bucket(len(c.Ops)))
 	return o, nil
 }
